@@ -155,14 +155,15 @@ def make_image(w, h, mname):
     return arr
 
 
-def readback_case(d, w, h, mname, scheme, part):
+def readback_case(d, w, h, mname, scheme, part, sub=None):
+    """sub = (ix, iy, sw, sh): tile only that sub-image, placed inside the (w, h) tiling."""
     from toasty.image import Image, ImageLoader
     from toasty.pyramid import PyramidIO
     from toasty.builder import Builder
-    from toasty.study import tile_study_image
+    from toasty.study import tile_study_image, StudyTiling
 
     dt, ch, fmt = MODES[mname]
-    cfg = {"width": w, "height": h, "mode": mname, "scheme": scheme}
+    cfg = {"width": w, "height": h, "mode": mname, "scheme": scheme, "sub": sub}
     part.case(nontrivial=True)
 
     def bad(clause, detail):
@@ -173,12 +174,26 @@ def readback_case(d, w, h, mname, scheme, part):
     pio = PyramidIO(out, scheme=scheme, default_format=fmt)
     try:
         with quiet():
-            img = Image.from_array(arr.copy(), default_format=fmt)
-            tiling = tile_study_image(img, pio)
+            if sub is None:
+                img = Image.from_array(arr.copy(), default_format=fmt)
+                tiling = tile_study_image(img, pio)
+            else:
+                ix, iy, sw, sh = sub
+                tiling = StudyTiling(w, h)
+                st = tiling.compute_for_subimage(ix, iy, sw, sh)
+                st.tile_image(Image.from_array(arr[iy : iy + sh, ix : ix + sw].copy(), default_format=fmt), pio)
+                # everything outside the sub-image is undefined in the expected canvas
+                keep = np.zeros(arr.shape[:2], bool)
+                keep[iy : iy + sh, ix : ix + sw] = True
+                blank = np.zeros_like(arr)
+                if dt[0] == "f":
+                    blank[...] = np.nan
+                arr_full = arr
+                arr = np.where(keep.reshape(keep.shape + (1,) * (arr.ndim - 2)), arr, blank)
             bld = Builder(pio)
             tiling.apply_to_imageset(bld.imgset)
     except Exception as e:
-        bad("raises:%s" % type(e).__name__, repr(e))
+        bad("raises:%s%s" % (type(e).__name__, "/subimage" if sub else ""), repr(e))
         return
     url = bld.imgset.url
     lev = bld.imgset.tile_levels
@@ -193,6 +208,11 @@ def readback_case(d, w, h, mname, scheme, part):
         gx0, gy0 = rt.offsets(w, h)
         want[gy0 : gy0 + h, gx0 : gx0 + w, :3] = arr
         want[gy0 : gy0 + h, gx0 : gx0 + w, 3] = 255
+        if sub is not None:
+            ix, iy, sw, sh = sub
+            a = np.zeros((h, w), "u1")
+            a[iy : iy + sh, ix : ix + sw] = 255
+            want[gy0 : gy0 + h, gx0 : gx0 + w, 3] = a
     elif dt == "u1" and ch == 4:
         want = rt.canvas(arr, 0)
     elif dt[0] == "f":
@@ -255,8 +275,9 @@ def readback_case(d, w, h, mname, scheme, part):
 def _readback(job):
     part = Part()
     with scratch("c08") as d:
-        for (w, h, m, scheme) in job:
-            readback_case(d, w, h, m, scheme, part)
+        for item in job:
+            (w, h, m, scheme) = item[:4]
+            readback_case(d, w, h, m, scheme, part, sub=item[4] if len(item) > 4 else None)
             import shutil
 
             for e in os.listdir(d):
@@ -304,6 +325,11 @@ def run(tier, seed):
             rb.append((w, h, m, "L/Y/YX" if (k + len(m)) % 2 == 0 or tier == "thorough" else "LXY"))
             if tier == "thorough":
                 rb.append((w, h, m, "LXY"))
+    # sub-images placed inside a larger tiling, read back the same way
+    subs = [((600, 520), (0, 0, 300, 260)), ((600, 520), (257, 255, 343, 265)), ((600, 520), (44, 3, 256, 256)), ((300, 700), (10, 500, 290, 200)), ((257, 300), (256, 299, 1, 1))]
+    for (w, h), sb in subs:
+        for m in (["F32/fits", "RGBA/png", "U8/npy"] if tier == "quick" else list(MODES)):
+            rb.append((w, h, m, "L/Y/YX", sb))
     rb = rng_order(rb, seed)
     n = max(1, len(rb) // 6)
     for i in range(0, len(rb), 6):
@@ -317,7 +343,7 @@ def replay(payload):
     part = Part()
     if "mode" in r:
         with scratch("c08r") as d:
-            readback_case(d, r["width"], r["height"], r["mode"], r["scheme"], part)
+            readback_case(d, r["width"], r["height"], r["mode"], r["scheme"], part, sub=tuple(r["sub"]) if r.get("sub") else None)
     else:
         geometry_case(r["width"], r["height"], part, sub=tuple(r["sub"]) if r.get("sub") else None)
     for sig, (detail, _) in part.violations.items():
